@@ -160,7 +160,13 @@ def oracle_progress(w: World, ix: Index | None = None) -> list[dict[str, Any]]:
                     if last_reason.get(h) not in (None, e.get('reason')):
                         attempts[h] = 0      # superseded by another cause: a new purpose starts from scratch or is re-purposed
                     last_reason[h] = e.get('reason')
-                    if e.get('retry') is not None and e['retry'] < attempts.get(h, 0) and not ix.specs.get(h, {}).get('subs'):
+                    late_echo_view = False
+                    if e.get('rv') is not None and str(e['rv']).isdigit() and e.get('inc'):
+                        # the view is older than this operator's own acknowledged write although its consistency timeout has run out (the echo never came:
+                        # lost with a broken stream, or a foreign write's event overtook it): the record of the last attempt is not in that view. The statement
+                        # excludes echo delays beyond the timeout; 2 us of slack for the request latency between kopf's clock reading and the server's stamp.
+                        late_echo_view = int(e['rv']) < ix.known_version(e['inc'], uid, e['g']) and int(e['rv']) >= ix.known_version(e['inc'], uid, e['g'], t=e['t'] + 2e-6)
+                    if e.get('retry') is not None and e['retry'] < attempts.get(h, 0) and not ix.specs.get(h, {}).get('subs') and not late_echo_view:
                         viol.append({'mech': 'retry-undercount', 'msg': f"{h} on {uid}: invoked with retry={e['retry']} although it was already "
                                      f"attempted {attempts.get(h, 0)} time(s) in this cycle", 'witness': _brief(e)})
                 else:
